@@ -105,5 +105,30 @@ example :
   exact run_perm_sessions_raise exSimLate exSimLate.evs.reverse [] exSimLate_valid (List.reverse_perm _) (List.Perm.refl _)
     (scripted_ignoresEvsePilot exScriptBadS []).1 9 _ _ (Prod.ext rfl hrun)
 
+local instance : Acn.Sorted.HasCeilNat ℚ := ⟨fun x => (Rat.ceil x).toNat⟩
+
+/-- station A is a DeadbandEVSE (no pilot strictly between 0 and 6 A) behind a 4 A limit: the greedy algorithm
+    hands x its 4 A in period 1 and `update_pilots` raises `InvalidRateError` -/
+def exSimDb : Sim.Cfg ℚ :=
+  { exSimLate with stations := [⟨"A", .deadband 6 (some 32), 208⟩, ⟨"B", .finite [0, 8, 16], 240⟩] }
+
+def exNetDb : Acn.SimSorted.NetInfo ℚ := ⟨[[1, 0]], [4], [1, 1], [0, 0], 1 / 10000, 1 / 10000000⟩
+
+/-- the hypotheses of `run_perm_sessions_sorted_raise` are satisfiable: a REAL algorithm (EDF greedy) whose run is
+    aborted by `update_pilots`, the sessions listed the other way round -/
+example :
+    (Sim.run exSimDb (Acn.SimSorted.sortedSched exNetDb 1000000 exSimDb exGreedy) 9 (Sim.init exSimDb)).2 = some .invalidRate ∧
+    ∃ r', Sim.run { exSimDb with evs := exSimDb.evs.reverse, recomputes := [] }
+        (Acn.SimSorted.sortedSched exNetDb 1000000 { exSimDb with evs := exSimDb.evs.reverse, recomputes := [] } exGreedy) 9
+        (Sim.init { exSimDb with evs := exSimDb.evs.reverse, recomputes := [] }) = (r', some .invalidRate) ∧
+      CoreEquiv (Sim.run exSimDb (Acn.SimSorted.sortedSched exNetDb 1000000 exSimDb exGreedy) 9 (Sim.init exSimDb)).1.core r'.core ∧
+      Mid (Sim.run exSimDb (Acn.SimSorted.sortedSched exNetDb 1000000 exSimDb exGreedy) 9 (Sim.init exSimDb)).1 r' := by
+  have hrun : (Sim.run exSimDb (Acn.SimSorted.sortedSched exNetDb 1000000 exSimDb exGreedy) 9 (Sim.init exSimDb)).2 =
+      some .invalidRate := by decide +kernel
+  refine ⟨hrun, ?_⟩
+  exact run_perm_sessions_sorted_raise exSimDb exSimDb.evs.reverse [] exSimLate_valid (List.reverse_perm _) (List.Perm.refl _)
+    (fun c => Acn.SimSorted.sortedSched exNetDb 1000000 c exGreedy) (Or.inl ⟨exNetDb, 1000000, exGreedy, rfl⟩) 9 _ _
+    (Prod.ext rfl hrun)
+
 end sessions_raise_example
 end Acn.C10
